@@ -300,7 +300,7 @@ theorem Hist.isMatch_of_get {h : Hist π} {c : Nat} {cm : Commit π} (hcm : h.co
 /-- `finish` preserves well-formedness; report commits are only appended -/
 theorem finish_wf {pl : Plug π β} {head : Nat} {st st' : St β} {c : Nat} {cm : Commit π} {fr : List Nat}
     (w : WF h st) (hfr : ∀ r ∈ fr, r < st.rp.rcs.length) (hcl : classify st.rp c = none)
-    (hcm : h.commits[c]? = some cm) (hf : finish pl head st c cm fr = .ok st') :
+    (hcm : h.commits[c]? = some cm) {rel : List Nat} (hf : finish pl head rel st c cm fr = .ok st') :
     WF h st' ∧ st.rp.rcs.length ≤ st'.rp.rcs.length := by
   obtain ⟨rp, br⟩ := st
   have hsel := selected_none_of_classify hcl
@@ -319,7 +319,7 @@ theorem finish_wf {pl : Plug π β} {head : Nat} {st st' : St β} {c : Nat} {cm 
     simp only [St.skipBuild, Repo.addPlain]; split <;> exact Nat.le_refl _
   | build bpar new pb pbs bumps bn na _ hfn =>
     have hs := findNew_spec w.rcPar hfn
-    let rc : RC := { commit := c, parents := fr, explicit := cm.isMatch, bns := buildNums cm (c == head) }
+    let rc : RC := { commit := c, parents := fr, explicit := cm.isMatch, bns := buildNums cm (c == head), time := cm.time }
     let bnMap := setAll rc.bns rp.rcs.length br.bnMap
     have w1 := w.setBpar hs bnMap
     have w2 := WF.addRC w1 rc hsel hfr (by simp only [rc, Hist.isMatch_of_get hcm])
@@ -451,12 +451,12 @@ theorem wf_hyps (h : Hist π) (pl : Plug π β) (head : Nat) :
     · exact hP.cls_lt hc r hr
   Vstep := fun _ _ _ => trivial
   Hfin := by
-    intro s c cm fr s' hP _ hcl hcm hQ hf
+    intro rel s c cm fr s' hP _ hcl hcm hQ hf
     exact finish_wf hP hQ hcl hcm hf
 
 theorem visit_wf {h : Hist π} (hT : h.Topo) {pl : Plug π β} {head : Nat} {fuel : Nat} {s s' : St β}
     {acc acc' : List Nat} {c : Nat} (w : WF h s) (hacc : ∀ r ∈ acc, r < s.rp.rcs.length)
-    (hv : visit h pl head fuel (s, acc) c = .ok (s', acc')) :
+    {rel : List Nat} (hv : visit h pl head fuel rel (s, acc) c = .ok (s', acc')) :
     WF h s' ∧ (∀ r ∈ acc', r < s'.rp.rcs.length) ∧ s.rp.rcs.length ≤ s'.rp.rcs.length :=
   visit_ind hT (wf_hyps h pl head) fuel s [] acc c s' acc' w hacc trivial hv
 
